@@ -339,6 +339,30 @@ theorem run_inv {α} (one : List Nat → Int → Bool → Except ErrKind α) (al
   | nil => exact hinv
   | cons op ops ih => exact ih _ (step_inv one all n s op hinv)
 
+/-- nothing but a replacement changes the pixel data the object holds -/
+theorem step_pd {α} (one : List Nat → Int → Bool → Except ErrKind α) (all : List Nat → Except ErrKind (List α)) (n : Int)
+    (s : Img α) (op : Op) (hinv : Inv all s) (hop : ∀ q, op ≠ .replace q) : (step one all n s op).pd = s.pd := by
+  cases op with
+  | fetch k ai => exact (fetchStep_inv one all n singleSkel s k ai hinv).2
+  | fetchVia b k ai => exact (fetchStep_inv one all n _ s k ai hinv).2
+  | whole =>
+    unfold step
+    cases hr : revalidate all s with
+    | error e => rfl
+    | ok r => obtain ⟨s', fr⟩ := r; exact (revalidate_inv all s s' fr hinv hr).2.1
+  | replace q => exact absurd rfl (hop q)
+  | scribble i => simp [step, singleCachedIsCopy, batchCachedIsCopy]
+
+theorem run_pd {α} (one : List Nat → Int → Bool → Except ErrKind α) (all : List Nat → Except ErrKind (List α)) (n : Int)
+    (s : Img α) (ops : List Op) (hinv : Inv all s) (hop : ∀ op ∈ ops, ∀ q, op ≠ .replace q) : (run one all n s ops).pd = s.pd := by
+  induction ops generalizing s with
+  | nil => rfl
+  | cons op ops ih =>
+    have h1 := step_pd one all n s op hinv (hop op (by simp))
+    have h2 := ih (step one all n s op) (step_inv one all n s op hinv) (fun o ho => hop o (by simp [ho]))
+    simp only [run, List.foldl_cons] at h2 ⊢
+    rw [h2, h1]
+
 /-! ### the reader behind a lazily read image -/
 
 theorem rrun_append (sc : Bool) (s : RState) (a b : List ROp) :
